@@ -134,3 +134,24 @@ Definition g_step (f : nat) (top : bool) (D : tenv) (L : list ident) (p : pstmt)
          && nested (x :: L) body
       then Some D else None
   end.
+
+(* `break` placement accepted by the parser: inside a for/while loop, and not directly at the
+   level of the main loop ([ml] = inside `while True:`, [ld] = loop depth as counted by the parser) *)
+Fixpoint brk_ok (ml : bool) (ld : nat) (p : pstmt) : bool :=
+  let fix go (d : nat) (l : list pstmt) : bool :=
+    match l with [] => true | x :: r => brk_ok ml d x && go d r end in
+  let fix gob (d : nat) (l : list (ann * list pstmt)) : bool :=
+    match l with [] => true | (_, b) :: r => go d b && gob d r end in
+  match p with
+  | PBreak => match ld with O => false | S O => negb ml | _ => true end
+  | PIf _ b el e => go ld b && gob ld el && go ld e
+  | PWhile _ b | PFor _ _ b => go (S ld) b
+  | _ => true
+  end.
+Fixpoint brk_l (ml : bool) (ld : nat) (l : list pstmt) : bool :=
+  match l with [] => true | x :: r => brk_ok ml ld x && brk_l ml ld r end.
+Fixpoint brk_lb (ml : bool) (ld : nat) (l : list (ann * list pstmt)) : bool :=
+  match l with [] => true | (_, b) :: r => brk_l ml ld b && brk_lb ml ld r end.
+
+Definition breaks_ok (p : pprog) : bool :=
+  brk_l false 0 (p_pre p) && match p_main p with Some b => brk_l true 1 b | None => true end.
